@@ -241,16 +241,13 @@ def events(darsia, rng, stacks, degrees, quick):
                 j += 1
             exps.append([i, j] if v == 1 else [-1, -1])
         ev.append({"tid": f"polyspace:{d}", "op": "polyspace", "d": d, "size": int(sp.size), "exps": exps})
-    # kernel interpolation (E4)
-    for i in range(6 if quick else 40):
-        ns = rng.randint(1, 4)
-        gaussian = rng.random() < 0.5
-        kern = darsia.GaussianKernel(gamma=rng.choice([0.5, 1.0, 2.0])) if gaussian else darsia.LinearKernel(a=1.0)
-        sup = np.array([[rng.uniform(0, 1) + 1.5 * s_ if c_ == s_ % 3 else rng.uniform(0, 1) for c_ in range(3)] for s_ in range(ns)])
-        vals = np.array([rng.uniform(0, 1) for _ in range(ns)])
+    # kernel interpolation (E4).  Every configuration is followed by a twin on the SAME support points with another kernel
+    # parameter (shift of the linear kernel, width of the Gaussian), and the first object is evaluated again afterwards:
+    # an interpolation reproduces ITS values with ITS kernel whatever other interpolation objects exist
+    def kernel_case(kern, gaussian, sup, vals, tid, ki=None):
         with warnings.catch_warnings():
             warnings.simplefilter("ignore")
-            ki = darsia.KernelInterpolation(kern, sup, vals)
+            ki = ki or darsia.KernelInterpolation(kern, sup.copy(), vals.copy())
             at = np.asarray(ki(np.asarray(ki.supports, dtype=np.float32)), dtype=float)
             cond = np.linalg.cond(ki.X)
             form = rng.choice(["pixels", "2d", "3d-as-2d"])
@@ -263,8 +260,21 @@ def events(darsia, rng, stacks, degrees, quick):
             plain += w[n_] * np.asarray(kern(sig.astype(float), S[n_]), dtype=float)
         repro = float(np.abs(at - np.asarray(ki.values, dtype=float)).max())
         bound = min(-1, exponent(1e-6 * max(1.0, cond)) + 1)
-        ev.append({"tid": f"kernel:{i}", "op": "kernel", "gaussian": int(gaussian), "nsupports": ns, "form": form,
+        ev.append({"tid": tid, "op": "kernel", "gaussian": int(gaussian), "nsupports": len(S), "form": form,
                    "reproexp": exponent(repro), "reprobound": bound, "accexp": exponent(float(np.abs(acc - plain).max()) / max(1.0, float(np.abs(plain).max())))})
+        return ki
+
+    for i in range(6 if quick else 40):
+        ns = rng.randint(1, 4)
+        gaussian = rng.random() < 0.5
+        p1, p2 = (rng.sample([0.5, 1.0, 2.0], 2)) if gaussian else rng.sample([1.0, 2.0, 0.5], 2)
+        mk = (lambda g: darsia.GaussianKernel(gamma=g)) if gaussian else (lambda a_: darsia.LinearKernel(a=a_))
+        sup = np.array([[rng.uniform(0, 1) + 1.5 * s_ if c_ == s_ % 3 else rng.uniform(0, 1) for c_ in range(3)] for s_ in range(ns)])
+        vals = np.array([rng.uniform(0, 1) for _ in range(ns)])
+        k1, k2 = mk(p1), mk(p2)
+        ki1 = kernel_case(k1, gaussian, sup, vals, f"kernel:{i}")
+        kernel_case(k2, gaussian, sup, vals, f"kernel:{i}:twin")
+        kernel_case(k1, gaussian, sup, vals, f"kernel:{i}:again", ki=ki1)
     return ev
 
 
@@ -278,6 +288,52 @@ def run(ck, replay=None):
     darsia = import_darsia()
     rng = random.Random(ck.seed)
     quick = ck.tier == "quick"
+    # two model objects of one class that agree in what a shared memo could be keyed by (labels, supports, shapes) and differ
+    # in their parameters, built and evaluated along every interleaving of spec/TwoObjects.tla
+    from lib import twoobj
+    thists = twoobj.histories(ck)
+    ntwin = 0
+    tspecs = []
+    labels = (np.arange(24).reshape(4, 6) % 3).astype(np.uint8)
+    sup = np.array([[0.1, 0.2, 0.3], [1.6, 0.4, 0.2], [0.3, 0.5, 1.9]])
+    sig3 = np.random.RandomState(3).rand(4, 6, 3).astype(np.float32)
+    sig1 = np.random.RandomState(4).rand(4, 6)
+    twins = {
+        "kernel-linear": (lambda o: darsia.KernelInterpolation(darsia.LinearKernel(a=1.0 if o == "a" else 2.0), sup.copy(), np.array([0.0, 0.5, 1.0])), lambda m: np.asarray(m(sig3), dtype=float)),
+        "kernel-gaussian": (lambda o: darsia.KernelInterpolation(darsia.GaussianKernel(gamma=1.0 if o == "a" else 2.0), sup.copy(), np.array([0.0, 0.5, 1.0])), lambda m: np.asarray(m(sig3), dtype=float)),
+        "hetlinear": (lambda o: darsia.HeterogeneousLinearModel(labels.copy(), scaling=[1.0, 2.0, 3.0] if o == "a" else [0.5, 0.25, 4.0], offset=[0.0, 1.0, -1.0] if o == "a" else [2.0, 0.0, 0.5]), lambda m: np.asarray(m(sig1), dtype=float)),
+        "hetthreshold": (lambda o: darsia.StaticThresholdModel([0.2, 0.4, 0.6] if o == "a" else [0.5, 0.1, 0.3], None, labels=labels.copy()), lambda m: np.asarray(m(sig1), dtype=float)),
+        "clip": (lambda o: darsia.ClipModel(**({"min value": 0.2, "max value": 0.7} if o == "a" else {"min value": 0.4, "max value": 0.9})), lambda m: np.asarray(m(sig1), dtype=float)),
+        "combined": (lambda o: darsia.CombinedModel([darsia.LinearModel(scaling=2.0 if o == "a" else 3.0, offset=0.5), darsia.ClipModel(**{"min value": 0.0, "max value": 2.0 if o == "a" else 1.5})]), lambda m: np.asarray(m(sig1), dtype=float)),
+    }
+    def kernel_oracle(kern_of):
+        out = {}
+        for o in ("a", "b"):
+            kern = kern_of(o)
+            S = np.unique(np.round(sup, decimals=5), axis=0)     # (the supports are distinct: same order of values)
+            K = np.array([[float(kern(S[i], S[j])) for j in range(len(S))] for i in range(len(S))])
+            w = np.linalg.solve(K, np.array([0.0, 0.5, 1.0])[np.unique(np.round(sup, decimals=5), axis=0, return_index=True)[1]])
+            out[o] = sum(w[n_] * np.asarray(kern(sig3.astype(float), S[n_]), dtype=float) for n_ in range(len(S)))
+        return out
+
+    oracles = {"kernel-linear": kernel_oracle(lambda o: darsia.LinearKernel(a=1.0 if o == "a" else 2.0)),
+               "kernel-gaussian": kernel_oracle(lambda o: darsia.GaussianKernel(gamma=1.0 if o == "a" else 2.0))}
+    for kind, (mk, ap) in twins.items():
+        def make(o, mk=mk):
+            with warnings.catch_warnings():
+                warnings.simplefilter("ignore")
+                return mk(o)
+
+        def use(o, m, ap=ap):
+            with warnings.catch_warnings():
+                warnings.simplefilter("ignore")
+                return ap(m)
+
+        sel = thists if not quick else [h for h in thists if len(h) <= 4]
+        tspecs.append((sel, kind, make, use, lambda x, y: x.shape == y.shape and np.allclose(x, y, rtol=1e-4, atol=1e-5), f"twin:{kind}",
+                       oracles.get(kind)))
+    ntwin = twoobj.run(ck, "C14", tspecs)
+    ck.cov["twin_object_histories"] = ntwin
     ev = events(darsia, rng, stacks, degrees, quick)
     bad = ck.validate("Trace_Models", "Trace.cfg", ev, chunk=400)
     for b in bad:
